@@ -17,7 +17,7 @@ UNIVERSES = [("00", "ff"), ("a5", "5a"), ("ff", "00")]
 
 def universe_env(u):
     mf, ff = UNIVERSES[u]
-    return {"ASAN_OPTIONS": "max_malloc_fill_size=268435456:malloc_fill_byte=%d:max_free_fill_size=268435456:free_fill_byte=%d" % (int(mf, 16), int(ff, 16))}
+    return {"ASAN_OPTIONS": "symbolize=0:max_malloc_fill_size=268435456:malloc_fill_byte=%d:max_free_fill_size=268435456:free_fill_byte=%d" % (int(mf, 16), int(ff, 16))}
 
 
 def argv_run(exe, mode, base, first, count, cat, extra=""):
@@ -48,6 +48,10 @@ def death_desc(rec):
 
 
 def dict_kind_of(rec):
+    st0 = rec.get("step") or ""
+    m0 = re.search(r"-(PFC|RPFC|HTFC|HHTFC|RPHTFC|RPDAC|HASHHF|HASHRPF|HASHUFFDAC|HASHRPDACBlocks|HASHRPDAC|FMINDEX|XBW)(-|$)", st0)
+    if m0:
+        return m0.group(1)
     sp = rec.get("spec") or ""
     m = re.search(r"triple=(\w+)/", sp) or re.search(r"\|kind=(\w+)", sp) or re.search(r"\|t0=(\w+)/", sp)
     if m:
@@ -74,7 +78,7 @@ class HistoryRun:
             def on(rec, u=u):
                 self.recs[u][rec["run"]] = rec
             stats[u] = S.run_shards(lambda f, c: argv_run(self.exe, mode, seed, f, c, cat, extra), runs, nworkers=per,
-                                    env=universe_env(u), on_record=on, deadline=budget.deadline(0.7), hang_s=60)
+                                    env=universe_env(u), on_record=on, deadline=budget.deadline(0.7), hang_s=40)
         for u in range(nuni):
             t = threading.Thread(target=go, args=(u,))
             t.start()
@@ -99,6 +103,33 @@ def run_history_check(prop, tier, mode, runs, cat, budget_s, design_ref, assumpt
     candidates = collections.OrderedDict()  # class key -> list of (universe, rec, desc)
     evaluations = 0
     nontrivial = set()
+    # pass 1: symmetric failures (isolated reference calls that did not survive, reference-phase
+    # deaths).  Their functions are "known to fail on their own": a varied-phase death inside one of
+    # them is ambiguous (layout-dependent wild read) and is not attributed to the property under test.
+    sym_functions = collections.Counter()
+    sym_items = []
+    for u in range(nuni):
+        for run, rec in hr.recs[u].items():
+            for sf in rec.get("sym") or []:
+                rep = sf.get("report") or ""
+                if rep.startswith("HANG"):
+                    d = {"class": "hang", "kind": "hang", "first_repo_function": "?"}
+                else:
+                    d = death_desc({"stderr": rep, "exit": 77})
+                d["dict_kind"] = (sf.get("what") or "?").split(" ")[0]
+                d["what"] = sf.get("what")
+                d.update({"phase": "ref", "step": "isolated-reference-call", "harness": "history", "mode": mode})
+                if d.get("first_repo_function"):
+                    sym_functions[d["first_repo_function"]] += 1
+                sym_items.append((u, rec, d))
+            if rec["verdict"] == "died" and (rec.get("phase") or "ref") == "ref":
+                d = death_desc(rec)
+                if d.get("first_repo_function"):
+                    sym_functions[d["first_repo_function"]] += 1
+    agg["symmetric_failures"] = len(sym_items)
+    if c07:
+        for u, rec, d in sym_items:
+            candidates.setdefault("%s|%s|sym" % (d["class"], d["dict_kind"]), []).append((u, rec, d))
     for u in range(nuni):
         for run, rec in sorted(hr.recs[u].items()):
             evaluations += 1
@@ -108,9 +139,15 @@ def run_history_check(prop, tier, mode, runs, cat, budget_s, design_ref, assumpt
                 d["dict_kind"] = dict_kind_of(rec)
                 d["harness"] = "history"
                 d["mode"] = mode
+                m = re.search(r"\|opt=(\d+)", rec.get("spec") or "")
+                d["opt"] = m.group(1) if m else ""
                 agg["verdicts"]["died"] += 1
                 key = "%s|%s|%s" % (d["class"], d["dict_kind"], d["step"] if not c07 else "")
-                if c07 or d["phase"] == "var":
+                if c07:
+                    candidates.setdefault(key, []).append((u, rec, d))
+                elif d["phase"] == "var" and d.get("first_repo_function") in sym_functions and not d["step"].startswith(("save", "second-save", "load-of", "own-load", "generic-load", "destroy", "sequential", "corrupted", "misdirected")):
+                    agg["precondition_failed"]["ambiguous: %s [%s] %s (function also fails in isolated reference calls)" % (d["class"], d["dict_kind"], d["step"])] += 1
+                elif d["phase"] == "var":
                     candidates.setdefault(key, []).append((u, rec, d))
                 else:
                     agg["precondition_failed"]["%s [%s] %s" % (d["class"], d["dict_kind"], d["step"])] += 1
@@ -128,6 +165,8 @@ def run_history_check(prop, tier, mode, runs, cat, budget_s, design_ref, assumpt
                 agg["precondition_failed"]["%s [%s]" % (rec.get("class"), rec.get("kinds"))] += 1
             elif v == "violation":
                 d = {"class": rec["class"], "dict_kind": dict_kind_of(rec), "harness": "history", "mode": mode, "phase": "var", "step": "oracle"}
+                m = re.search(r"\|opt=(\d+)", rec.get("spec") or "")
+                d["opt"] = m.group(1) if m else ""
                 if c07:
                     agg["other"][rec["class"]] += 1   # C07 reports memory errors, hangs and universe differences only
                 else:
@@ -223,6 +262,8 @@ def run_history_check(prop, tier, mode, runs, cat, budget_s, design_ref, assumpt
         "faults_and_probes": dict(agg["stats"]),
         "universe_pairs_compared": agg["universe_pairs_compared"],
         "precondition_failed": dict(agg["precondition_failed"].most_common(40)),
+        "symmetric_failures_isolated_calls": agg.get("symmetric_failures", 0),
+        "functions_failing_symmetrically": dict(sym_functions.most_common(30)),
         "events_attributed_to_other_properties": dict(agg["other"]),
         "known_findings_hit": [list(x) for x in known_hit],
         "violation_classes": violations,
